@@ -90,6 +90,29 @@ impl Composer {
         self.add_point_gates(a, b)
     }
 
+    /// The built-in scalar dictionary of compressed circuits.
+    pub fn verif_compress_scalar_table(
+        hades_optimization: bool,
+    ) -> Vec<(BlsScalar, usize)> {
+        super::compress::verif_scalar_table(hades_optimization)
+    }
+
+    /// Seam over `CompressedCircuit::from_composer`.
+    pub fn verif_compress(self, hades_optimization: bool) -> Vec<u8> {
+        super::compress::CompressedCircuit::from_composer(
+            hades_optimization,
+            self,
+        )
+    }
+
+    /// Seam over `Composer::from_bytes` (decompression).
+    pub fn verif_decompress(
+        compressed: &[u8],
+        max_constraints: usize,
+    ) -> Result<Self, Error> {
+        Self::from_bytes(compressed, max_constraints)
+    }
+
     /// Seam over `append_fixed_base_signed_digits`.
     pub fn verif_fixed_base_signed_digits(
         &mut self,
